@@ -363,16 +363,18 @@ VEX_REG_CLASSES = {"rvm": (0x72, 0x75), "rm": (0x68, 0x6B), "rvmi": (0x7A, 0x7C)
                    # X86Rot: shift / rotate a register by an imm8 ([rm, imm8] with an opcode-extension digit), all operand sizes
                    "lrot": (0x37,),
                    # X86Arith `op r8, imm8` (80 /d ib)
-                   "larithi8": (0x19,)}
+                   "larithi8": (0x19,),
+                   # X86Push / X86Pop with a general-purpose register: the short `50+r` / `58+r` forms (register in the opcode byte)
+                   "lopreg": (0x33, 0x35)}
 SHAPE_ROLES = {"rvm": ["reg", "vvvv", "rm"], "rm": ["reg", "rm"], "rvmi": ["reg", "vvvv", "rm", "imm"], "rmi": ["reg", "rm", "imm"],
-               "lrm": ["reg", "rm"], "lmr": ["rm", "reg"], "lrmi": ["reg", "rm", "imm"], "lop": None, "larith": ["rm", "reg"], "lrot": ["rm", "imm"], "larithi8": ["rm", "imm"]}
+               "lrm": ["reg", "rm"], "lmr": ["rm", "reg"], "lrmi": ["reg", "rm", "imm"], "lop": None, "larith": ["rm", "reg"], "lrot": ["rm", "imm"], "larithi8": ["rm", "imm"], "lopreg": ["opc"]}
 
 
 def class_rows_lean(kept, rows, chunk=96):
     """kept: [(form, roles)], rows: {name: [id, enc, mainOp hex, altOp hex, iflags hex, aflags hex]} -> Lean source"""
     out = ["/- GENERATED by tools/gen_c01.py from db/isa_x86.json and the compiled instruction tables (harness `row`). -/",
            "import AsmjitVerif.Spec.X86Decode", "set_option maxRecDepth 100000", "namespace AsmjitVerif.Gen.X86ClassRows", "open Spec.X86", "",
-           "structure Entry where", "  name : String", "  enc : Nat", "  mainOp : BitVec 32", "  iflags : BitVec 32", "  aflags : BitVec 32 := 0#32", "  rule : Rule", "  kinds : List RegKind", ""]
+           "structure Entry where", "  name : String", "  enc : Nat", "  mainOp : BitVec 32", "  iflags : BitVec 32", "  aflags : BitVec 32 := 0#32", "  altOp : BitVec 32 := 0#32", "  rule : Rule", "  kinds : List RegKind", ""]
     counts = {}
     for shape, encs in VEX_REG_CLASSES.items():
         entries = []
@@ -412,8 +414,8 @@ def class_rows_lean(kept, rows, chunk=96):
             line, _ = translate(f)
             import itertools
             for combo in itertools.product(*kinds):
-                entries.append('  { name := "%s", enc := %d, mainOp := 0x%s#32, iflags := 0x%s#32, aflags := 0x%s#32, kinds := [%s],\n    rule := %s }' % (
-                    f["name"], int(r[1]), r[2], r[4], r[5], ", ".join(KIND_LEAN[k] for k in combo), rule_lean(line)))
+                entries.append('  { name := "%s", enc := %d, mainOp := 0x%s#32, iflags := 0x%s#32, aflags := 0x%s#32, altOp := 0x%s#32, kinds := [%s],\n    rule := %s }' % (
+                    f["name"], int(r[1]), r[2], r[4], r[5], r[3], ", ".join(KIND_LEAN[k] for k in combo), rule_lean(line)))
         counts[shape] = len(entries)
         nch = 0
         for i in range(0, len(entries), chunk):
